@@ -151,6 +151,25 @@ inline int run_cases(const std::function<std::string(const std::string&)>& handl
             {
                 int ec = WEXITSTATUS(status);
                 results[next] = std::string("CRASH ") + (ec == 99 ? "asan" : ec == 98 ? "ubsan" : ("exit=" + std::to_string(ec)));
+                // a sanitizer started with log_path=$PV_SAN_LOG wrote <path>.<pid>: keep its summary and the report
+                if (const char* lp = getenv("PV_SAN_LOG"))
+                {
+                    std::string path = std::string(lp) + "." + std::to_string(pid);
+                    if (FILE* f = fopen(path.c_str(), "r"))
+                    {
+                        char ln[1024];
+                        std::string summary;
+                        while (fgets(ln, sizeof ln, f))
+                            if (strncmp(ln, "SUMMARY:", 8) == 0 && summary.empty())
+                                summary = ln;
+                        fclose(f);
+                        for (char& ch : summary)
+                            if (ch == ' ' || ch == '\n' || ch == '\t')
+                                ch = '_';
+                        if (!summary.empty())
+                            results[next] += " report=" + path + " " + summary;
+                    }
+                }
             }
             else if (!(WIFEXITED(status) && WEXITSTATUS(status) == 0))
                 results[next] = "CRASH unknown";
